@@ -24,8 +24,8 @@ enum Job {
 
 pub fn run(args: &Args) {
     install_panic_hook();
-    let n_hist = args.n(40, 2000);
-    let n_host_msgs = args.n(400, 60_000);
+    let n_hist = args.n(40, 3000);
+    let n_host_msgs = args.n(400, 100_000);
     let per_case: u64 = args.param_u64("hostile_per_case", 20);
     let n_host_cases = n_host_msgs.div_ceil(per_case);
     let big: usize = args.param_u64("big", if args.tier == Tier::Quick { 400 } else { 4000 }) as usize;
